@@ -17,19 +17,29 @@ MODEL = "dirty"
 SHRINKABLE = True
 RULE = ("generated fonts (new, loaded from a generated UFO, just saved) x histories of catalogued public mutators of every "
         "object kind (effective change, or re-assignment of the held value), optional hold/release brackets on objects of "
-        "the chain; after each op: dirty flag of every object of the tree and the exact sequence of *.Changed deliveries to "
-        "a universal observer are compared with the model; oracle: after an effective change (and the release of all holds) "
-        "the object and all ancestors are dirty and each delivered *.Changed; a same-value re-assignment delivers nothing "
-        "and changes no flag; non-trivial = at least one effective change on an object at depth >= 2; distinct = distinct case")
+        "the chain, saves (succeeding, and failing while a layer is written) followed by further mutators; the model is told "
+        "the initial tree and per op only (receiver, kind, mutator, effective|same); after each op the dirty flag of every "
+        "object, the *.Changed deliveries to a universal observer, new and detached objects and the OBSERVED touched set (deepest "
+        "objects that announced, became dirty, or whose own data differ) are compared with the model's prediction; oracle: after "
+        "an effective change (and the release of all holds) the receiver - and whichever object's own data differ - and all "
+        "ancestors are dirty and each delivered *.Changed; a same-value re-assignment delivers nothing and changes no flag; "
+        "non-trivial = at least one effective change on an object at depth >= 2; distinct = distinct case")
 ASSUMPTIONS = [
     "no disableNotifications scope is active (propagation is cut by design there)",
     "container-valued 'assign = clear + refill' conveniences (glyph.lib = …, glyph.anchors = …, guidelines = …) are bulk "
     "mutators, not re-assignments: not held to the silence clause",
     "components reference base glyphs that are absent, so no cross-glyph notifications (C03 covers those)",
-    "dirty flags of objects below the glyph are read but never expected to be cleared (finding F31)",
+    "which flags a save clears is C06's subject: the model is told the flags after a save (as it is told the initial ones); "
+    "saves happen only while nothing is held",
+    "variants of data-dependent mutators (bottomMargin= without a vertical origin, deleting a glyph whose name stays in the "
+    "glyph order, fall-backs for contours no pen can draw) are decided from public reads before the call and named in the "
+    "mutator name",
 ]
 TRUSTED = ["the catalogue harness/props/c02.py:CATALOGUE performs the mutators it names; its completeness against the source "
-           "is the regenerated table lean/DefconModel/Gen/Mutators.lean + theorem catalogue_covers"]
+           "is the regenerated table lean/DefconModel/Gen/Mutators.lean + theorem catalogue_covers; its names are entries of the "
+           "Lean target table (table_covers_catalogue) whose targets / guards / relays agree with the AST (table_agrees_with_source)",
+           "the observation of the touched set on the implementation: *.Changed deliveries, dirty flags and data fingerprints of "
+           "contours, components, anchors, guidelines, images and libs"]
 
 COLORS = ["1,0,0,1", "0,1,0,0.5", "0,0,1,1"]
 
@@ -854,8 +864,52 @@ def _guards(funcs, setters, direct, calls, reach):
     return res
 
 
+def _const_str(node):
+    return node.value if isinstance(node, ast.Constant) and isinstance(node.value, str) else None
+
+
+def _posts_and_observers(funcs, calls):
+    """per function: the notification names it posts (itself or through methods of the class it runs); and for the
+    class: notification name -> callbacks registered with `<obj>.addObserver(self, "<callback>", "<name>")`"""
+    posts = {}
+    observers = {}
+    for name, f in funcs.items():
+        ps = set()
+        for n in ast.walk(f):
+            if not (isinstance(n, ast.Call) and isinstance(n.func, ast.Attribute)):
+                continue
+            if n.func.attr == "postNotification":
+                cand = [n.args[0]] if n.args else []
+                cand += [kw.value for kw in n.keywords if kw.arg == "notification"]
+                for c in cand:
+                    if _const_str(c):
+                        ps.add(_const_str(c))
+            if n.func.attr == "addObserver":
+                kw = {k.arg: k.value for k in n.keywords}
+                args = list(n.args)
+                observer = kw.get("observer", args[0] if len(args) > 0 else None)
+                method = kw.get("methodName", args[1] if len(args) > 1 else None)
+                note = kw.get("notification", args[2] if len(args) > 2 else None)
+                if isinstance(observer, ast.Name) and observer.id == "self" and _const_str(method) and _const_str(note):
+                    observers.setdefault(_const_str(note), set()).add(_const_str(method))
+        posts[name] = ps
+    changed = True
+    while changed:
+        changed = False
+        for n in funcs:
+            for c in calls[n]:
+                if not posts[c] <= posts[n]:
+                    posts[n] |= posts[c]
+                    changed = True
+    return posts, observers
+
+
 def _extract_facts(repo):
-    """(kind, method or `prop=`) -> (roles reached, guarded) for every public method / property setter of every class"""
+    """(kind, method or `prop=`) -> (roles reached, guarded) for every public method / property setter of every class.
+    Roles: `self`, `lib`, `image`, `info`, `contour` / `component` / `anchor` (see _analyse), and for the one effect that
+    crosses the tree: `font.lib<self` when the method posts a notification for which the Font registers a callback that
+    writes `self.lib[…]`, `font.lib<parent` when it posts one that the class of its container (Layer for Glyph) observes with
+    a callback that posts such a notification in turn."""
     bases_ns = {}
     btree = ast.parse(open(os.path.join(repo, "Lib", "defcon", "objects", "base.py")).read())
     for b in BASE_CLASSES:
@@ -873,7 +927,7 @@ def _extract_facts(repo):
                 if len(args) >= 2 and isinstance(args[1], ast.Name):
                     setters[n.targets[0].id] = args[1].id
         bases_ns[b] = (funcs, setters)
-    facts = {}
+    per = {}
     for kind, (fn, cls) in KIND_CLASSES.items():
         funcs, setters, tree, inherited = _class_namespace(repo, fn, cls, bases_ns)
         if kind == "info":
@@ -889,15 +943,36 @@ def _extract_facts(repo):
                     setters[attr] = "_set_" + attr
         direct, calls, reach = _analyse(funcs, setters)
         guard = _guards(funcs, setters, direct, calls, reach)
+        posts, observers = _posts_and_observers(funcs, calls)
+        per[kind] = dict(funcs=funcs, setters=setters, inherited=inherited, reach=reach, guard=guard, posts=posts, observers=observers)
+    # notifications that make the font write its lib
+    font = per["font"]
+    to_font_lib = {n for n, cbs in font["observers"].items() if any("lib" in font["reach"].get(cb, ()) for cb in cbs)}
+    container = {"glyph": "layer", "layer": "layerSet", "contour": "glyph", "component": "glyph", "anchor": "glyph"}
+    facts = {}
+    for kind, c in per.items():
+        funcs, setters, inherited, reach, guard, posts = c["funcs"], c["setters"], c["inherited"], c["reach"], c["guard"], c["posts"]
+        par = per.get(container.get(kind))
+
+        def roles(fname):
+            r = set(reach[fname])
+            if posts[fname] & to_font_lib:
+                r.add("font.lib<self")
+            if par is not None:
+                for n in posts[fname]:
+                    for cb in par["observers"].get(n, ()):
+                        if par["posts"].get(cb, set()) & to_font_lib:
+                            r.add("font.lib<parent")
+            return sorted(r)
         # (an inherited method that reaches nothing - addObserver, getRepresentation … - is left out; one the class
         # defines itself is listed even when it reaches nothing: that is a decided fact)
         for name in sorted(funcs):
             if not name.startswith("_") or name in ("__setitem__", "__delitem__", "__ior__"):
                 if reach[name] or name not in inherited:
-                    facts[(kind, name)] = (sorted(reach[name]), guard[name])
+                    facts[(kind, name)] = (roles(name), guard[name])
         for prop, sname in sorted(setters.items()):
             if sname in funcs and not prop.startswith("_") and (reach[sname] or sname not in inherited):
-                facts[(kind, prop + "=")] = (sorted(reach[sname]), guard[sname])
+                facts[(kind, prop + "=")] = (roles(sname), guard[sname])
     return facts
 
 
@@ -934,7 +1009,9 @@ def extract(repo, lean_dir):
     lines += ["]", "",
               "/-- what the AST says about a public method / property setter (`x=`) of the class of a kind: which objects its body,",
               "or a method of the class it runs, sets dirty or writes (`self`, `lib`, `image`, `info`, `contour` / `component` / `anchor`",
-              "for a loop that calls a mutator on each), and whether it carries the comparison that keeps a re-assignment silent -/",
+              "for a loop that calls a mutator on each; `font.lib<self` / `font.lib<parent` when it posts a notification that makes the",
+              "font write its lib, directly or passed on by its container), and whether it carries the comparison that keeps a",
+              "re-assignment silent -/",
               "structure Facts where", "  kind : String", "  method : String", "  reaches : List String", "  guard : Bool", "",
               "def facts : List Facts := ["]
     lines.append(",\n".join('  ⟨"%s", "%s", %s, %s⟩' % (k, m, lst(r), "true" if g else "false") for (k, m), (r, g) in sorted(facts.items())))
